@@ -3,6 +3,7 @@ functions use must agree with a reference written with different primitives (ind
 Every query must be *confirmed*; the native cross-check in engine._execute additionally re-runs one concrete
 model per path with plain CPython, which ties the reference itself to CPython.  A failure aborts the check with
 exit 3 (the engine, not cutplace, is broken)."""
+import re
 from typing import List
 
 from .engine import Query, assume
@@ -120,10 +121,32 @@ def e_twin_false(c: str):
     return False
 
 
+_RX_END = re.compile("[a-c]*$")
+_RX_END_M = re.compile("[a-c]*$", re.MULTILINE)
+_RX_ENDZ = re.compile(r"[a-c]*\Z")
+
+
+def e_regex_end(s: str):
+    """'$' (with and without MULTILINE) and '\\Z' against an index-loop reference (E-PATCH4)"""
+    assume(len(s) <= 2)
+    for c in s:
+        assume(ord(c) in (97, 98, 10, 120))
+    n = len(s)
+    run = 0
+    while run < n and 97 <= ord(s[run]) <= 99:
+        run += 1
+    exp_z = run == n
+    exp_end = run == n or (run == n - 1 and ord(s[run]) == 10)
+    exp_m = run == n or ord(s[run]) == 10
+    ok = ((_RX_ENDZ.match(s) is not None) == exp_z and (_RX_END.match(s) is not None) == exp_end and
+          (_RX_END_M.match(s) is not None) == exp_m)
+    return ok, ("end" if exp_end else "no")
+
+
 def queries():
     out = []
     for fn, exp in ((e_concat, ()), (e_strip, ("n0", "n+")), (e_slice, ()), (e_cmp, ("eqTrue", "eqFalse")),
-                    (e_in, ("fTrue", "fFalse")), (e_lower, ()), (e_int, ("inTrue", "inFalse")), (e_list, ())):
+                    (e_in, ("fTrue", "fFalse")), (e_lower, ()), (e_int, ("inTrue", "inFalse")), (e_list, ()), (e_regex_end, ("end", "no"))):
         out.append(Query("engine/" + fn.__name__, "engine", (lambda mode, f=fn: f), bounds="micro-suite",
                          budget_s=120, per_path_timeout=30, expect=exp, witnesses=25))
     return out
